@@ -365,10 +365,20 @@ def rule_fg(ck, R):
                     bad = 'checksum variant %s for %s memory' % (c_.name, '16-bit' if m16 else '8-bit')
                 if c_.args[0] != ('v', 'pl') or c_.args[1] != ('v', 'n'):
                     bad = 'checksum over (%s, %s)' % (fmt(c_.args[0]), fmt(c_.args[1]))
+            haspl = any(c == ('cmp', '!=', ('v', 'pl'), C(0)) for c in p.cond_terms())
+            nopl = any(c == ('cmp', '==', ('v', 'pl'), C(0)) for c in p.cond_terms())
+            if haspl and (len(cc) != 1 or strip_cast(a[8]) != cc[0].result):
+                bad = bad or ('with a payload the checksum announced in the header is %s, not one computed over the payload '
+                              '(%d checksum calls on the path)' % (fmt(a[8]), len(cc)))
+            if nopl and (cc or strip_cast(a[8]) != C(0)):
+                bad = bad or 'without payload the payload checksum argument is %s' % fmt(a[8])
+            if not haspl and not nopl:
+                bad = bad or 'the acknowledgement does not distinguish payload from no payload'
             if smc:
                 ws = 2 if m16 else 1
                 if strip_cast(smc[0].args[3]) != ('v', 'pl') or L(smc[0].args[4]) != L(('v', 'n')).scale(ws):
                     bad = 'payload sent is (%s, %s)' % (fmt(smc[0].args[3]), fmt(smc[0].args[4]))
+                bad = bad or emitted_header(eh[0], smc[0])
         ck.verdict(bad is None, 'C08.g', 'regp_resp_ack', R.where('regp_resp_ack'),
                    'acknowledgement echoes sequence/address, checksums exactly the payload it sends with the variant of the memory width' if bad is None else bad)
 
